@@ -1,2 +1,3 @@
 import XfemmVerif.Scalar
 import XfemmVerif.Model.Sparse
+import XfemmVerif.Model.Markers
